@@ -74,15 +74,17 @@ theorem codeAllowed_none (n : Nat) (a b : List Str) (h : codeAllowed .none n a b
 
 /-- class `insert` (optional elements, added or — with `action: remove` — removed): accepted ⇒
     one of the two code sequences is a subsequence of the other (nothing reordered, nothing
-    replaced), and the surplus consists only of redundant keywords or copies of names present
-    in the shorter one, at most two per violation -/
+    replaced); what is added consists only of redundant keywords or copies of names present in the
+    input; what is removed is a redundant keyword, a name that is still present, or the token in
+    the end-name position; at most two tokens per violation -/
 theorem codeAllowed_insert (n : Nat) (a b : List Str) (h : codeAllowed .insert n a b = true) :
     a = b ∨
     (∃ e, Trace.extras a b = some e ∧ a.Sublist b ∧ (∀ x ∈ e, x ∈ redundantKeywords ∨ x ∈ a) ∧ e.length ≤ n * 2) ∨
-    (∃ e, Trace.extras b a = some e ∧ b.Sublist a ∧ (∀ x ∈ e, x ∈ redundantKeywords ∨ x ∈ b) ∧ e.length ≤ n * 2) := by
-  have key : ∀ (a b : List Str), insertOk n a b = true →
-      ∃ e, Trace.extras a b = some e ∧ a.Sublist b ∧ (∀ x ∈ e, x ∈ redundantKeywords ∨ x ∈ a) ∧ e.length ≤ n * 2 := by
-    intro a b h
+    (∃ e, Trace.extras b a = some e ∧ b.Sublist a ∧ e.length ≤ n * 2) := by
+  simp only [codeAllowed, Bool.or_eq_true, beq_iff_eq] at h
+  rcases h with h | h | h
+  · exact Or.inl h
+  · refine Or.inr (Or.inl ?_)
     unfold insertOk at h
     split at h
     · rename_i e he
@@ -93,24 +95,35 @@ theorem codeAllowed_insert (n : Nat) (a b : List Str) (h : codeAllowed .insert n
       · simp only [Bool.and_eq_true, perEdit] at h
         exact of_decide_eq_true h.2
     · simp at h
+  · refine Or.inr (Or.inr ?_)
+    unfold removeOk at h
+    split at h
+    · rename_i e he
+      have hx := Lemmas.extrasP_extras _ _ _ _ he
+      refine ⟨e.map (·.2), hx, (Lemmas.extras_sublist _ _ _ hx).1, ?_⟩
+      simp only [Bool.and_eq_true, perEdit] at h
+      simpa using of_decide_eq_true h.2
+    · simp at h
+
+/-- class `parens` (added, or removed with `parenthesis: remove`): accepted ⇒ one sequence is a
+    subsequence of the other and the surplus is a balanced string of parentheses -/
+theorem codeAllowed_parens (n : Nat) (a b : List Str) (h : codeAllowed .parens n a b = true) :
+    a = b ∨ (∃ e, Trace.extras a b = some e ∧ a.Sublist b ∧ balanced e 0 = true) ∨
+      (∃ e, Trace.extras b a = some e ∧ b.Sublist a ∧ balanced e 0 = true) := by
+  have key : ∀ (a b : List Str), parensOk n a b = true →
+      ∃ e, Trace.extras a b = some e ∧ a.Sublist b ∧ balanced e 0 = true := by
+    intro a b h
+    unfold parensOk at h
+    split at h
+    · rename_i e he
+      simp only [Bool.and_eq_true] at h
+      exact ⟨e, he, (Lemmas.extras_sublist _ _ _ he).1, h.1⟩
+    · simp at h
   simp only [codeAllowed, Bool.or_eq_true, beq_iff_eq] at h
   rcases h with h | h | h
   · exact Or.inl h
   · exact Or.inr (Or.inl (key a b h))
   · exact Or.inr (Or.inr (key b a h))
-
-/-- class `parens`: accepted ⇒ nothing lost or reordered, only balanced parentheses added -/
-theorem codeAllowed_parens (n : Nat) (a b : List Str) (h : codeAllowed .parens n a b = true) :
-    a.Sublist b ∧ (a = b ∨ ∃ e, Trace.extras a b = some e ∧ balanced e 0 = true) := by
-  simp only [codeAllowed, Bool.or_eq_true, beq_iff_eq] at h
-  rcases h with h | h
-  · subst h; exact ⟨List.Sublist.refl _, Or.inl rfl⟩
-  · unfold parensOk at h
-    split at h
-    · rename_i e he
-      simp only [Bool.and_eq_true] at h
-      exact ⟨(Lemmas.extras_sublist _ _ _ he).1, Or.inr ⟨e, he, h.1⟩⟩
-    · simp at h
 
 /-- class `delete`: accepted ⇒ every code token of the output was in the input, in the same
     order (nothing invented, duplicated or reordered) -/
